@@ -21,7 +21,7 @@ from hsim.worlds.http import FlowRecord, HttpWorld
 
 PROPERTY = "C16"
 CHUNK = {"quick": 10, "thorough": 24}
-PROBES = ["regrant_same_name", "prefix_related_urls", "lookup_extends_several", "lookup_unknown", "temporary_second_lookup",
+PROBES = ["older_url_granted_again", "regrant_same_name", "prefix_related_urls", "lookup_extends_several", "lookup_unknown", "temporary_second_lookup",
           "temporary_via_uploader", "proxy_cap_registered_twice", "proxy_cap_in_seed", "wrapper_resolved",
           "asset_cap_unattributed", "two_sessions", "seed_twice_same_region", "lookup_older_grant", "by_name_most_recent",
           "seed_interleaved_with_lookup"]
@@ -84,6 +84,13 @@ def gen_plan(rng: random.Random, tier: str) -> dict:
             for nm in names:
                 if rng.random() < 0.1:
                     continue   # the simulator does not grant everything it is asked for
+                mine = [g["url"] for g in granted if (g["s"], g["r"], g["name"]) == (s, r, nm)]
+                if nm not in ASSET_NAMES and len(set(mine)) >= 2 and rng.random() < 0.35:
+                    # the simulator hands out, again, a URL it had granted for this very name before
+                    older = [u for u in mine if u != mine[-1]]
+                    grant[nm] = rng.choice(older)
+                    granted.append({"s": s, "r": r, "name": nm, "url": grant[nm]})
+                    continue
                 if nm in ASSET_NAMES:
                     grant[nm] = f"http://asset-cdn.example.invalid/{nm.lower()}"     # identical for everybody
                 elif granted and rng.random() < 0.12:
@@ -104,8 +111,10 @@ def gen_plan(rng: random.Random, tier: str) -> dict:
             steps.append({"at": t, "op": "temp", "s": s, "r": r, "via": rng.choice(["uploader", "direct"]), "url": url,
                           "name": rng.choice(["NewFileAgentInventory", "UpdateScriptAgent"])})
             granted.append({"s": s, "r": r, "name": "tmp", "url": url})
-        elif x < 0.56:
-            steps.append({"at": t, "op": "byname", "s": s, "r": r, "name": rng.choice(NORMAL_NAMES + ASSET_NAMES + PROXY_NAMES)})
+        elif x < 0.60:
+            known = [g["name"] for g in granted if (g["s"], g["r"]) == (s, r) and g["name"] != "tmp"]
+            pool = known if known and rng.random() < 0.7 else NORMAL_NAMES + ASSET_NAMES + PROXY_NAMES
+            steps.append({"at": t, "op": "byname", "s": s, "r": r, "name": rng.choice(pool)})
         else:
             y = rng.random()
             if y < 0.7 and granted:
@@ -383,6 +392,9 @@ def run_plan(plan: dict) -> RunResult:
                         for nme, gurl in st["grant"].items():
                             if any((g["s"], g["r"], g["name"]) == (s, r, nme) for g in grants):
                                 res.probe("regrant_same_name")
+                            prior = [g["url"] for g in grants if (g["s"], g["r"], g["name"]) == (s, r, nme)]
+                            if gurl in prior and prior[-1] != gurl:
+                                res.probe("older_url_granted_again")
                             if any(gurl != g["url"] and (gurl.startswith(g["url"]) or g["url"].startswith(gurl)) for g in grants):
                                 res.probe("prefix_related_urls")
                             grant(s, r, nme, gurl, "NORMAL")
